@@ -392,7 +392,7 @@ def worker_dir(name="w"):
 
 def run_case_in_dir(mod, case):
     """mod.run_case(case) with the case's own scratch directory, removed afterwards."""
-    CASE_DIR[0] = "k" + hashlib.sha1(("%s/%s" % (case.get("prop"), case.get("id"))).encode()).hexdigest()[:5]
+    CASE_DIR[0] = "k" + hashlib.sha1(("%s/%s" % (case.get("prop"), case.get("id"))).encode()).hexdigest()[:12]
     try:
         return mod.run_case(case)
     finally:
@@ -531,7 +531,7 @@ def digest_of(procs):
     global _THREAD_ID
     if _THREAD_ID is None:
         _THREAD_ID = (re.compile(rb"thread '([^']*)' \(\d+\)"), re.compile(rb"0x[0-9a-fA-F]{6,}"),
-                      re.compile(re.escape(SCRATCH.encode()) + rb"/(?:w\d\d|k[0-9a-f]{5})"),
+                      re.compile(re.escape(SCRATCH.encode()) + rb"/(?:w\d\d|k[0-9a-f]{12})"),
                       # the profile report quotes the process's memory usage as the OS accounts it: not owned by the simulator
                       re.compile(rb"(Physical|Virtual) memory: \d+ bytes"))
     h = hashlib.sha256()
